@@ -9,22 +9,33 @@ from sa.domains import escaper_problems, replace_chain
 from sa.effects import class_accesses
 from sa.selftest import Mutant, Silent
 from sa.source import AnalysisError, class_assigns, methods
-from sa.props._lib_i import (sect, COMPAT, BlockRaised, FollowModule, NotPure, Raised, bind_methods, eval_block, interp, module_env, peval, words)
+from sa.props._lib_c import norm_class
+from sa.props._lib_i import (sect, COMPAT, Abstain, BlockRaised, FollowModule, NotPure, Raised, bind_methods, domain_argument, kinded, structural, eval_block, interp, module_env, peval, words)
 
 PROPERTY = "C43"
+RULE_KINDS = {
+    "quote/table": "structural", "quote/dequote-table-inverse": "structural", "dequote/regex": "structural",     # table agreement / constant pattern shape
+    "send/single-wire-path": "structural", "queue/fifo": "structural", "send-defuse/": "structural",
+    "quote/escaper-rows": "finite-exhaustive", "quote/escaper-order": "finite-exhaustive",            # every table row / the concatenation of all rows
+    "quote/output-alphabet": "finite-exhaustive", "dequote/undoes-quote": "finite-exhaustive",         # all 256 units + special-character words, premise checked
+    "quote/output-alphabet (bounded)": "bounded", "dequote/undoes-quote (bounded)": "bounded",
+    "send/quoted-before-wire": "bounded", "send/terminator": "bounded", "send/siblings-forward-length": "bounded", "split/": "bounded", "limit/": "bounded",
+    "queue/drains-in-order": "bounded",
+}
 IRC = "words/protocols/irc.py"
-TECHNIQUE = "escaper rewrite-system checks, table inversion, exhaustive short-word round trip, budget arithmetic"
+TECHNIQUE = "table agreement, def-use, call-graph closure; exhaustive quoting units; bounded send grid"
 EXPLANATION = (
-    "Quoting (lowQuote/lowDequote with M_QUOTE, ctcpQuote/ctcpDequote with X_QUOTE): every table row is escape-unit + one distinct "
-    "tail, the quoter applies every row with the escape unit first and no double escaping, the de-quote table is derived as the "
-    "inverse, the de-quoting regex matches exactly escape + one unit, and de-quote(quote(w)) == w with no forbidden character "
-    "(NUL, CR, LF resp. X_DELIM) in quote(w) for every word over keys+tails up to length 3. Send path: only _reallySendLine "
-    "reaches the wire, it low-quotes the line first and terminates it with CR LF; _sendMessage hands split() a width with "
-    "width + len(prefix) + 2 <= length for every length (else ValueError), sends prefix+chunk for every chunk in order; msg/notice "
-    "forward message and length; split() wraps with the given width and no content-dropping / limit-breaking options. The limit is "
-    "in octets but chunks are measured in characters before low-quoting and UTF-8 encoding expand them: known finding F43. "
-    "The rate-limit queue is filled at one end and drained from the other (operation kinds), and three queued lines are "
-    "evaluated to leave in order with lineRate set. Not decided: textwrap's own behaviour (content preservation of the wrapping), server-side IRC.sendLine."
+    'STRUCTURAL: quote tables (escape + one distinct tail per row, forbidden characters have rows), de-quote tables are the'
+    ' inverse, the de-quoting pattern is escape + one unit; on the normalised IRCClient every definition of the value hande'
+    'd to LineReceiver.sendLine passes lowQuote (def-use); only _reallySendLine or private helpers called from nothing else'
+    ' write to the transport (call-graph closure); the rate-limit queue is filled at one end and drained from the other (op'
+    'eration kinds). FINITE-EXHAUSTIVE (premise checked: quoters only apply .replace() rewrites, de-quoters decide on singl'
+    'e units and constants): every table row, the concatenation of all rows, all 256 single units and every word <= 3 over '
+    'the special characters round-trip and contain no forbidden character. BOUNDED only (message text and lengths are infin'
+    "ite domains; the arithmetic is the splitter's): width + prefix + CR LF <= length on a grid, msg/notice forwarding, spl"
+    'it() chunk widths and content, real messages x lengths through _sendMessage -> split -> _reallySendLine (plain text wi'
+    'thin budget; characters that quoting / UTF-8 expand exceed it: known finding F43), three queued lines leave in order, '
+    'wire form of sample lines. Not decided: textwrap internals, server-side IRC.sendLine.'
 )
 ASSUMPTIONS = [
     "textwrap.wrap(text, width) returns chunks of at most width characters that together contain all non-whitespace characters in order (stdlib)",
@@ -112,10 +123,36 @@ def _check_quoting(ctx, env, cenv, label, qname, dqname, esc_name, table_name, d
     for rx_name, rx in sorted((k, v) for k, v in env.items() if isinstance(v, re.Pattern) and any(isinstance(n, ast.Name) and n.id == k for n in ast.walk(fd))):
         shape_ok = all((m := rx.match(esc + t + "Z")) is not None and m.end() == 2 for t in list(want) + [esc, "a"]) and rx.match("a" + esc) is None and rx.fullmatch(esc) is None
         ctx.check(shape_ok, "dequote/regex", f"{base}{rx_name}", f"pattern {rx.pattern!r} does not match exactly the escape unit followed by one character")
+    # premise of exhaustiveness: the quoter only applies .replace() rewrites (character-wise), the de-quoter decides on the unit and its
+    # predecessor through constants only; then every single unit 0..255 plus every word <= 3 over the special characters is a complete domain
+    def followed(f0):
+        out, work = [f0], [f0]
+        while work:
+            for c in ast.walk(work.pop()):
+                if isinstance(c, ast.Call) and isinstance(c.func, ast.Name):
+                    h = next((st for st in mod.tree.body if isinstance(st, ast.FunctionDef) and st.name == c.func.id), None)
+                    if h is not None and h not in out:
+                        out.append(h)
+                        work.append(h)
+        return out
+    qfuncs, dfuncs = followed(fq), followed(fd)
+    text_methods = {c.func.attr for f_ in qfuncs for c in ast.walk(f_) if isinstance(c, ast.Call) and isinstance(c.func, ast.Attribute)}
+    ex_q = text_methods <= {"replace", "items", "get", "join"}
+    helper_names = {h.name for h in mod.tree.body if isinstance(h, ast.FunctionDef)} | {"reduce"}
+    ex_d = all(domain_argument([f_] + [n_ for n_ in ast.walk(f_) if isinstance(n_, ast.FunctionDef) and n_ is not f_],
+                               inputs={a.arg for a in f_.args.args} | {a.arg for n_ in ast.walk(f_) if isinstance(n_, ast.FunctionDef) for a in n_.args.args},
+                               state={t.id for st in ast.walk(f_) if isinstance(st, (ast.Assign, ast.AugAssign)) for t in (st.targets if isinstance(st, ast.Assign) else [st.target]) if isinstance(t, ast.Name)},
+                               helpers=helper_names)[0] for f_ in dfuncs)
+    exhaustive = ex_q and ex_d
+    why_dom = ("quoter = character-wise .replace() rewrites, de-quoter decides on single units and constants: all 256 single units and all words <= 3 over the special characters are a complete domain"
+               if exhaustive else "premise of exhaustiveness not established on this shape: bounded evidence")
+    if not exhaustive:
+        ctx.note(f"{qname}/{dqname}: {why_dom}")
     alphabet = sorted(set(table) | set(want) | {"a", "\x01", "\\", "\x10", "\x00", "\r", "\n"})
     bad_rt = bad_out = None
     n = 0
-    for w in words(alphabet, 3):
+    singles = [(chr(cp),) for cp in range(256)] + [("\u00e9",), ("\u20ac",)]
+    for w in list(words(alphabet, 3)) + singles:
         text = "".join(w)
         try:
             qd = quote(text)
@@ -127,9 +164,9 @@ def _check_quoting(ctx, env, cenv, label, qname, dqname, esc_name, table_name, d
             bad_rt = (text, qd, back)
         if any(c in qd for c in forbidden) and bad_out is None:
             bad_out = (text, qd)
-    ctx.check(bad_rt is None, "dequote/undoes-quote", f"{base}{dqname} ~ {qname} | round trip",
-              bad_rt and f"{qname}({bad_rt[0]!r}) = {bad_rt[1]!r} is read back by {dqname} as {bad_rt[2]!r}", detail=f"{n} words over {len(alphabet)} characters, length <= 3")
-    ctx.check(bad_out is None, "quote/output-alphabet", f"{base}{qname} | forbidden characters removed",
+    ctx.check(bad_rt is None, kinded("dequote/undoes-quote", exhaustive), f"{base}{dqname} ~ {qname} | round trip",
+              bad_rt and f"{qname}({bad_rt[0]!r}) = {bad_rt[1]!r} is read back by {dqname} as {bad_rt[2]!r}", detail=f"{n} texts: all 256 single units + words <= 3 over {len(alphabet)} special characters; " + why_dom)
+    ctx.check(bad_out is None, kinded("quote/output-alphabet", exhaustive), f"{base}{qname} | forbidden characters removed",
               bad_out and f"{qname}({bad_out[0]!r}) = {bad_out[1]!r} still contains a character that must not appear on the wire")
     return [(k, v) for k, v in table.items()]
 
@@ -159,6 +196,49 @@ def _check_send_path(ctx, env, low_pairs):
                 ctx.check(wire_writer(name), "send/single-wire-path", ctx.construct(base + name, c),
                           "a second place writes protocol lines to the transport, bypassing low-level quoting and the CR LF terminator")
     ctx.floor("send/single-wire-path", n, 1)
+    # -- structural: on the normalised _reallySendLine every occurrence of the line that flows into the wire call lies inside lowQuote(...)
+    with structural(ctx, "send-defuse/quoted-before-wire", "send/quoted-before-wire (bounded)"):
+        ncls = norm_class(ctx, IRC, "IRCClient", keep=("_reallySendLine", "sendLine", "_sendLine", "_sendMessage", "msg", "notice"))
+        nf = next((m for m in ast.walk(ncls) if isinstance(m, ast.FunctionDef) and m.name == "_reallySendLine"), None)
+        if nf is None:
+            raise Abstain("_reallySendLine not found in the normalised class")
+        lp = nf.args.args[1].arg
+        sinks = [c for c in ast.walk(nf) if isinstance(c, ast.Call) and ((call_name(c) or "").endswith("LineReceiver.sendLine") or call_name(c) in ("self.transport.write",))]
+        if not sinks:
+            raise Abstain("no wire call in the normalised _reallySendLine")
+        defs = {}
+        for st in ast.walk(nf):
+            if isinstance(st, (ast.Assign, ast.AugAssign)):
+                for t in (st.targets if isinstance(st, ast.Assign) else [st.target]):
+                    if isinstance(t, ast.Name):
+                        defs.setdefault(t.id, []).append(st.value)
+
+        def flows(e, seen=()):
+            if isinstance(e, ast.Call) and call_name(e) == "lowQuote":
+                return {"quoted"} if any("raw" in flows(a, seen) or "quoted" in flows(a, seen) for a in e.args) else set()
+            if isinstance(e, ast.Name):
+                if e.id == lp:
+                    return {"raw"}
+                if e.id in seen:
+                    return set()
+                if e.id in defs:
+                    out = set()
+                    for v in defs[e.id]:
+                        out |= flows(v, seen + (e.id,))
+                    return out
+                return set()
+            if isinstance(e, ast.Call) and (call_name(e) or "").startswith("self._"):
+                raise Abstain(f"private helper {call_name(e)} not inlined")
+            out = set()
+            for ch in ast.iter_child_nodes(e):
+                out |= flows(ch, seen)
+            return out
+        for c in sinks:
+            fl = flows(c.args[-1]) if c.args else set()
+            if not fl:
+                raise Abstain("the written value does not derive from the line parameter in a recognisable way")
+            ctx.check("raw" not in fl, "send-defuse/quoted-before-wire", ctx.construct(base + "_reallySendLine", c),
+                      "the line parameter reaches the wire call by a definition that does not pass through lowQuote(...): a CR, LF or NUL in a message goes out raw")
     # -- _reallySendLine evaluated (with the private helpers it calls): the wire carries lowQuote(line), UTF-8 encoded, then CR LF
     f = ctx.func(IRC, "IRCClient._reallySendLine")
     q = base + "_reallySendLine"
